@@ -553,7 +553,7 @@ def c08(ctx):
 
 
 def c11(ctx):
-    files = parser_trees(ctx, ['struct', 'tokens', 'nest', 'numobj'])
+    files = parser_trees(ctx, ['struct', 'tokens', 'nest', 'numobj', 'keypad', 'surrkey'])
     if ctx.quick:
         consts = {'Keys': '{<<97>>}', 'Leaves': '{VNull, VNum(<<49>>)}'}
     else:
